@@ -224,6 +224,13 @@ func (o *FilterOptimizer) optimizeGtGteExpr(e *BinaryOpExpr) *ScanType {
 		key   []byte    = nil
 	)
 
+	if _, isLit := e.Left.(*StringExpr); isLit {
+		if _, isField := e.Right.(*FieldExpr); isField {
+			// 'x' > key means key < 'x', infer the range from the mirrored expression
+			return o.optimizeLtLteExpr(&BinaryOpExpr{Pos: e.Pos, Op: Lte, Left: e.Right, Right: e.Left})
+		}
+	}
+
 	switch left := e.Left.(type) {
 	case *StringExpr:
 		key = []byte(left.Data)
@@ -258,6 +265,13 @@ func (o *FilterOptimizer) optimizeLtLteExpr(e *BinaryOpExpr) *ScanType {
 		key   []byte    = nil
 	)
 
+	if _, isLit := e.Left.(*StringExpr); isLit {
+		if _, isField := e.Right.(*FieldExpr); isField {
+			// 'x' < key means key > 'x', infer the range from the mirrored expression
+			return o.optimizeGtGteExpr(&BinaryOpExpr{Pos: e.Pos, Op: Gte, Left: e.Right, Right: e.Left})
+		}
+	}
+
 	switch left := e.Left.(type) {
 	case *StringExpr:
 		key = []byte(left.Data)
@@ -291,6 +305,12 @@ func (o *FilterOptimizer) optimizePrefixMatchExpr(e *BinaryOpExpr) *ScanType {
 		field KVKeyword = ValueKW
 		key   []byte    = nil
 	)
+
+	if _, isLit := e.Left.(*StringExpr); isLit {
+		// 'x' ^= key tests whether key is a prefix of 'x': the matching keys
+		// do not share the prefix 'x', so no prefix scan can be used
+		return &ScanType{FULL, nil}
+	}
 
 	switch left := e.Left.(type) {
 	case *StringExpr:
